@@ -17,6 +17,28 @@ use crate::c03::{make_seed, seed_points};
 use crate::family;
 use crate::mutate::{Fam, MutSpace};
 
+/// Bound on a single allocation request of the parser: PARSE_FACTOR x input length + ALLOC_SLACK bytes.
+pub const PARSE_FACTOR: usize = 16;
+pub const ALLOC_SLACK: usize = 64 << 10;
+
+fn alloc_class(what: &str, max_request: usize, reference: usize) -> String {
+    let r = max_request as f64 / (reference.max(1) as f64);
+    let c = if max_request <= 4096 {
+        "<= 4 KiB"
+    } else if r <= 1.0 {
+        "<= 1 x reference"
+    } else if r <= 4.0 {
+        "<= 4 x reference"
+    } else if r <= 16.0 {
+        "<= 16 x reference"
+    } else if r <= 256.0 {
+        "<= 256 x reference"
+    } else {
+        "> 256 x reference"
+    };
+    format!("largest single allocation during {what}: {c}")
+}
+
 pub const C06_FAMS: [Fam; 12] = [Fam::BitFlip, Fam::ByteValue, Fam::Truncate, Fam::Trailing, Fam::FieldValue, Fam::Resize, Fam::ElemValue, Fam::Swap, Fam::CountPair, Fam::Gkr, Fam::Consistent, Fam::HeaderPair];
 
 struct Hostile<'a> {
@@ -97,7 +119,18 @@ impl<'a> PairFn for Hostile<'a> {
             n += 1;
             let mclass = || format!("{:?}: {}", fam, crate::mutate::squeeze_idx(&crate::c01::squeeze(&mlabel)));
             let info = || json!({"pair": pname, "seed": label, "mutation": mlabel, "mutant_index": idx, "input_len": mbytes.len()});
-            let p2 = match kit::pan::catch(|| Proof::from_bytes(&mbytes)) {
+            let (parsed, meter) = kit::alloc::measure(|| kit::pan::catch(|| Proof::from_bytes(&mbytes)));
+            // memory: no single request of the parser may exceed a small multiple of the input (decoded values are no
+            // larger than their encoding; a growing vector at most doubles)
+            let parse_limit = PARSE_FACTOR * mbytes.len() + ALLOC_SLACK;
+            if meter.max_request > parse_limit {
+                out.violation(
+                    format!("Proof::from_bytes requests memory out of proportion to its input (one allocation above {PARSE_FACTOR} x input + {} KiB)", ALLOC_SLACK >> 10),
+                    json!({"case": info(), "mutation_class": mclass(), "largest_request_bytes": meter.max_request, "sum_of_requests_bytes": meter.sum_requests}),
+                );
+            }
+            out.class(&alloc_class("parse", meter.max_request, mbytes.len()));
+            let p2 = match parsed {
                 Ok(Ok(p)) => p,
                 Ok(Err(_)) => {
                     out.class("rejected by the parser");
@@ -122,7 +155,11 @@ impl<'a> PairFn for Hostile<'a> {
                 }
                 let pols: &[AcceptableOptions] = if pi == 0 && dense { &policies } else { &policies[..1] };
                 for pol in pols {
-                    match verify_with::<B, H, Coin<H>>(p2.clone(), ps, pol) {
+                    let pc = p2.clone();
+                    let claimed_n: usize = p2.context.trace_info().length();
+                    let (res, meter) = kit::alloc::measure(|| verify_with::<B, H, Coin<H>>(pc, ps, pol));
+                    out.class(&alloc_class("verify", meter.max_request, mbytes.len() + claimed_n.min(1usize << 40) * 16));
+                    match res {
                         VerifyOutcome::Accept => out.class("parsed and accepted"),
                         VerifyOutcome::Reject(_) => out.class("parsed and rejected"),
                         VerifyOutcome::Panic(c) => out.violation(format!("verify panics: {c}"), json!({"case": info(), "mutation_class": mclass(), "public_inputs": (["matching", "different shape", "minimal"][pi])})),
